@@ -147,6 +147,18 @@ def run(ctx):
             model = d.call('tt_checked', vlib.sx_show(al), '()', sx_str(s))
             ctx.corr('teletype.addTextToElement(checked) on %s:%s' % (e0.qname[0].split(':')[-2], e0.qname[1]), s, model, impl)
             ctx.bump('allows=%s' % ''.join('1' if b else '0' for b in al))
+    # ---- oracle: histories - a refused call must not influence later calls ----------
+    for _ in range(300 if ctx.quick else 3000):
+        s1 = rand_string(ctx.rng, 10); s2 = rand_string(ctx.rng, 10)
+        bad = ctx.rng.choice([text.List, text.ListItem, odf.table.TableRow, text.S])(check_grammar=False)
+        try: teletype.addTextToElement(bad, s1)
+        except (IllegalText, IllegalChild): pass
+        p = text.P(); teletype.addTextToElement(p, s2)
+        ctx.oracle_cases += 1
+        got = teletype.extractText(p)
+        if got != s2:
+            ctx.violation('roundtrip-after-refused-call', {'refused': s1, 'then': s2}, got, s2, {})
+        ctx.nt(('hist', s1, s2))
     # ---- oracle: real save + load ---------------------------------------------------
     from odf.opendocument import OpenDocumentText, load
     strings = [''.join(t) for n in range(0, 4) for t in itertools.product(ALPHA, repeat=n)]
